@@ -178,8 +178,25 @@ func pxRowData(be, idx, n int) []byte {
 // fake MySQL backend
 
 type fbScript struct {
-	Rows   int // rows of the scripted result set
-	RowLen int // packet payload length of every row
+	Rows   int         // rows of the scripted result set (statements that name no sub-table)
+	RowLen int         // packet payload length of every row
+	Sub    map[int]int // rows per sub-table index (statements on tbl_ks_NNNN); absent = Rows
+}
+
+// fbSubTable: the sub-table index a statement addresses (tbl_ks_0002 -> 2), or -1
+func fbSubTable(sql string) int {
+	i := strings.Index(sql, "tbl_ks_")
+	if i < 0 || i+11 > len(sql) {
+		return -1
+	}
+	n := 0
+	for _, c := range sql[i+7 : i+11] {
+		if c < '0' || c > '9' {
+			return -1
+		}
+		n = n*10 + int(c-'0')
+	}
+	return n
 }
 
 type fakeBackend struct {
@@ -189,6 +206,7 @@ type fakeBackend struct {
 	script  fbScript
 	served  int      // scripted result sets fully written
 	queries []string // marker queries seen (most recent last, bounded)
+	fieldls map[string]string // COM_FIELD_LIST seen, by wildcard: "b<id>|<current db of the connection>|<table>"
 	connSeq uint32
 	closed  int32
 }
@@ -227,6 +245,15 @@ func (fb *fakeBackend) setScript(s fbScript) {
 	fb.served = 0
 	fb.queries = nil
 	fb.mu.Unlock()
+}
+
+// fieldList returns (and forgets) what the backend recorded for the COM_FIELD_LIST with this wildcard.
+func (fb *fakeBackend) fieldList(wildcard string) (string, bool) {
+	fb.mu.Lock()
+	defer fb.mu.Unlock()
+	v, ok := fb.fieldls[wildcard]
+	delete(fb.fieldls, wildcard)
+	return v, ok
 }
 
 func (fb *fakeBackend) stats() (int, []string) {
@@ -307,6 +334,7 @@ func (fb *fakeBackend) serve(c net.Conn) {
 	if p.writePacket(bw, fbOK(fbStatusAutocommit)) != nil || bw.Flush() != nil {
 		return
 	}
+	curDB := ""
 	for {
 		data, err := p.readPacket()
 		if err != nil || len(data) == 0 {
@@ -316,9 +344,21 @@ func (fb *fakeBackend) serve(c net.Conn) {
 		switch data[0] {
 		case 0x01: // COM_QUIT
 			return
-		case 0x0e, 0x02: // COM_PING, COM_INIT_DB
+		case 0x02: // COM_INIT_DB
+			curDB = string(data[1:])
 			err = p.writePacket(bw, fbOK(fbStatusAutocommit))
-		case 0x04: // COM_FIELD_LIST
+		case 0x0e: // COM_PING
+			err = p.writePacket(bw, fbOK(fbStatusAutocommit))
+		case 0x04: // COM_FIELD_LIST: table NUL wildcard NUL
+			parts := strings.SplitN(string(data[1:]), "\x00", 3)
+			if len(parts) >= 2 && parts[1] != "" {
+				fb.mu.Lock()
+				if fb.fieldls == nil {
+					fb.fieldls = map[string]string{}
+				}
+				fb.fieldls[parts[1]] = fmt.Sprintf("b%d|%s|%s", fb.id, curDB, parts[0])
+				fb.mu.Unlock()
+			}
 			if err = p.writePacket(bw, fbColDef("db", "t", "v", 0xfd, 255)); err == nil {
 				err = p.writePacket(bw, fbEOF(fbStatusAutocommit))
 			}
@@ -344,7 +384,14 @@ func (fb *fakeBackend) answerQuery(p *pktConn, bw *bufio.Writer, sql string) err
 			fb.queries = fb.queries[len(fb.queries)-8:]
 		}
 		fb.mu.Unlock()
-		if err := fb.writeResult(p, bw, sc); err != nil {
+		tag := fb.id
+		if sub := fbSubTable(sql); sub >= 0 {
+			tag = sub
+			if n, ok := sc.Sub[sub]; ok {
+				sc.Rows = n
+			}
+		}
+		if err := fb.writeResult(p, bw, sc, tag); err != nil {
 			return err
 		}
 		fb.mu.Lock()
@@ -377,7 +424,7 @@ func (fb *fakeBackend) answerQuery(p *pktConn, bw *bufio.Writer, sql string) err
 	return p.writePacket(bw, fbOK(fbStatusAutocommit))
 }
 
-func (fb *fakeBackend) writeResult(p *pktConn, bw *bufio.Writer, sc fbScript) error {
+func (fb *fakeBackend) writeResult(p *pktConn, bw *bufio.Writer, sc fbScript, tag int) error {
 	if err := p.writePacket(bw, []byte{1}); err != nil {
 		return err
 	}
@@ -393,7 +440,7 @@ func (fb *fakeBackend) writeResult(p *pktConn, bw *bufio.Writer, sc fbScript) er
 	}
 	for i := 0; i < sc.Rows; i++ {
 		row := pxLenEnc(make([]byte, 0, sc.RowLen), uint64(dl))
-		row = append(row, pxRowData(fb.id, i, dl)...)
+		row = append(row, pxRowData(tag, i, dl)...)
 		if err := p.writePacket(bw, row); err != nil {
 			return err
 		}
@@ -455,7 +502,7 @@ func pxNamespaceConfig(ns pxNamespace, backends []*fakeBackend) *models.Namespac
 	for i, b := range backends {
 		name := fmt.Sprintf("slice-%d", i)
 		sliceNames = append(sliceNames, name)
-		locations = append(locations, 1)
+		locations = append(locations, 2) // two sub-tables per slice: tbl_ks_0000/0001 on slice-0, 0002/0003 on slice-1
 		cfg.Slices = append(cfg.Slices, &models.Slice{
 			Name: name, UserName: "root", Password: "root", Master: b.addr() + "#c3",
 			Capacity: 8, MaxCapacity: 16, IdleTimeout: 3600,
